@@ -36,7 +36,48 @@ func e3Init() {
 			ln.Close()
 		}
 		fdCensus()
+		go e3Heartbeat()
 	})
+}
+
+// e3Heartbeat measures how late this process's goroutines are being run: it sleeps a millisecond at a time
+// and keeps the largest oversleep. Checks that compare a duration with a bound ask e3Starved first: on a
+// machine with hundreds of runnable threads per core a goroutine can sit for seconds before it runs, and a
+// measured duration then says nothing about the code under test.
+var e3LateMu sync.Mutex
+var e3Late []struct {
+	at   time.Time
+	late time.Duration
+}
+
+func e3Heartbeat() {
+	for {
+		t0 := time.Now()
+		time.Sleep(time.Millisecond)
+		if late := time.Since(t0) - time.Millisecond; late > 50*time.Millisecond {
+			e3LateMu.Lock()
+			e3Late = append(e3Late, struct {
+				at   time.Time
+				late time.Duration
+			}{time.Now(), late})
+			if len(e3Late) > 4096 {
+				e3Late = e3Late[2048:]
+			}
+			e3LateMu.Unlock()
+		}
+	}
+}
+
+// e3Starved returns the largest scheduling delay seen since the given time.
+func e3Starved(since time.Time) (max time.Duration) {
+	e3LateMu.Lock()
+	defer e3LateMu.Unlock()
+	for _, l := range e3Late {
+		if l.at.After(since) && l.late > max {
+			max = l.late
+		}
+	}
+	return
 }
 
 var e3StallBound = 30 * time.Second
@@ -1503,6 +1544,7 @@ func runDial(s dialScn) (sig, msg string, timedOut, failed int) {
 		per = s.Sweep
 	}
 	results := make([]res, s.N*per)
+	dialsStart := time.Now()
 	var wg sync.WaitGroup
 	for i := 0; i < s.N; i++ {
 		i := i
@@ -1542,6 +1584,9 @@ func runDial(s dialScn) (sig, msg string, timedOut, failed int) {
 			return "neither", fmt.Sprintf("dial %d returned neither a connection nor an error", i), 0, 0
 		}
 		if r.took > timeout+5*time.Second {
+			if late := e3Starved(dialsStart); late > time.Second {
+				continue // the process itself was not being run for that long (see e3Heartbeat): no verdict
+			}
 			return "timeout-ignored", fmt.Sprintf("dial %d took %v with a %v timeout", i, r.took, timeout), 0, 0
 		}
 		if r.err == errSweepClosed {
